@@ -80,8 +80,14 @@ def shipped():
 def read_src(src):
     if "file" in src:
         with open(os.path.join(REPO, src["file"]), encoding="utf-8") as f:
-            return f.read()
-    return src["text"]
+            text = f.read()
+    else:
+        text = src["text"]
+    if src.get("deblank"):
+        # the same program without its removable blank lines (Colang 1.0): the edits then put blank lines back, also
+        # where the shipped file already has one (e.g. between a comment and the `$var = ...` it documents)
+        text = deblank_v1(text)
+    return text
 
 
 # ---------------------------------------------------------------- generated programs
@@ -309,9 +315,84 @@ def gen_v1_program(rng):
             lines.append(u + "else when user intent1")
             lines.append(u + u + "bot reply1")
         if rng.random() < 0.3:
-            lines.append(u + "user intent0 or \\")
-            lines.append(u + u + "intent1")
+            lines.extend(_v1_continuation(rng, u, u))
         lines.append(u + f"bot reply{rng.randrange(2)}")
+        lines.append("")
+    return "\n".join(lines)
+
+
+def _v1_continuation(rng, ind, u):
+    """a statement continued on the next line(s): a line ending in `\\` or in the operator ` or` (get_numbered_lines joins them)"""
+    r = rng.random()
+    if r < 0.35:
+        return [ind + "$y = execute act(a=1, \\", ind + u + rng.choice(["", " "]) + "b=2)"]
+    if r < 0.7:
+        return [ind + "if $x > 1 or" + rng.choice(["", " \\"]), ind + u + u + "$x < 0", ind + u + "bot reply0"]
+    return [ind + "if $x > 1 or", ind + u + "$x < 0 or \\", ind + "$x == 7", ind + u + "bot reply0"]
+
+
+V1_INSTR = ["Extract the math question from the user's input.", "Greet the user warmly,", "and mention the weather.", "Summarize: all of it", "a \"quoted\" word",
+            "x", "use $name here", "two  blanks", "ünï ✓", "ends with or", "1 + 1 = 2"]
+
+
+def gen_v1_comment_program(rng):
+    """Valid Colang 1.0 programs in which comments CARRY MEANING: `# ...` lines (one or several) and `\"\"\" ... \"\"\"` blocks (one line
+    or several) directly above `$var = ...` (-> `instructions` of `generate_value`), above bot steps (-> generation instructions
+    at run time), above other steps, above `define`; some already separated from the statement by a blank line."""
+    lines = []
+    u = rng.choice(["  ", "    ", "   "])
+
+    def comment(ind):
+        r = rng.random()
+        if r < 0.4:
+            out = [ind + "# " + rng.choice(V1_INSTR)]
+        elif r < 0.6:
+            out = [ind + "# " + rng.choice(V1_INSTR) for _ in range(rng.choice([2, 2, 3]))]
+        elif r < 0.7:
+            out = [ind + rng.choice(["#", "#x", "#  padded  "]), ind + "# " + rng.choice(V1_INSTR)]
+        elif r < 0.82:
+            out = [ind + '"""' + rng.choice(V1_INSTR).replace('"', "'") + '"""']
+        elif r < 0.92:
+            out = [ind + '"""' + rng.choice(["", "First line"]), ind + rng.choice(["", " "]) + rng.choice(V1_INSTR).replace('"', "'"), ind + rng.choice(["more", "  indented more"]), ind + '"""']
+        else:
+            out = [ind + '"""Open', ind + 'closed here"""']
+        if rng.random() < 0.15:
+            out.append("")  # the shipped generate_value config has the blank line already
+        return out
+
+    lines.append("define user ask")
+    lines.append(u + json.dumps(rng.choice(["hello", "what # is", "a or b"])))
+    lines.append("")
+    if rng.random() < 0.5:
+        lines.extend(comment(""))
+    lines.append("define bot reply0")
+    lines.append(u + json.dumps(rng.choice(["ok", "sure thing"])))
+    lines.append("")
+    for i in range(rng.randrange(1, 4)):
+        if rng.random() < 0.3:
+            lines.extend(comment(""))
+        lines.append(rng.choice([f"define flow c{i}", f"define flow c{i}", "define flow", f"define subflow s{i}"]) if i else f"define flow c{i}")
+        lines.append(u + "user ask")
+        for _ in range(rng.randrange(1, 5)):
+            r = rng.random()
+            ind = u
+            if r < 0.15:
+                lines.append(u + "if $x > 1")
+                ind = u + u
+            if rng.random() < 0.8:
+                lines.extend(comment(ind))
+            r = rng.random()
+            if r < 0.4:
+                lines.append(ind + f"${rng.choice(['q', 'name', 'full_query'])} = ...")
+            elif r < 0.7:
+                lines.append(ind + rng.choice(["bot reply0", "bot answer", "bot $q", 'bot "literal"']))
+            elif r < 0.8:
+                lines.append(ind + "$y = execute act(a=$q)")
+            elif r < 0.9:
+                lines.extend(_v1_continuation(rng, ind, u))
+            else:
+                lines.append(ind + "$z = 1")
+        lines.append(u + "bot reply0")
         lines.append("")
     return "\n".join(lines)
 
@@ -596,7 +677,7 @@ def _gen_edit_v2(rng, allow_tab=True, kw=None):
         return {"op": "trail", "at": rng.randrange(10 ** 6), "kw": kw, "ws": rng.choice([" ", "  ", "     "] + (["\t", " \t"] if allow_tab and rng.random() < 0.3 else []))}
     if r < 0.8:
         return {"op": "comment", "at": rng.randrange(10 ** 6), "kw": kw, "gap": rng.choice(["", " ", "  "]),
-                "text": rng.choice(["# note", "#", "# flow x", "#  define y ", "# \"quoted\" 'x'", "# tab\there", "# ünï ✓", "## $v = 1 (", "# ..."])}
+                "text": rng.choice(["# note", "#", "# flow x", "#  define y ", "# \"quoted\" 'x'", "# tab\there", "# ünï ✓", "## $v = 1 (", "# ...", "# meta: exclude from llm"])}
     if r < 0.97:
         return {"op": "scale", "k": rng.choice([2, 2, 3, 4])}
     return {"op": "blank0", "ws": rng.choice(["", " ", "  "]), "cr": False}
@@ -604,8 +685,47 @@ def _gen_edit_v2(rng, allow_tab=True, kw=None):
 
 # ---- Colang 1.0 edits work on raw lines
 
+_V1_CONT = re.compile(r"(\\|(?<![^\s])or)\s*(#.*)?$")
+
+
+def _v1_string_lines(raw, recs):
+    """indices of the raw lines that belong to a multi-line string (first to last line), from the REAL records"""
+    inside = set()
+    for r in recs:
+        if "\n" in r["text"]:
+            span = r["text"].count("\n") + 1
+            inside.update(range(r["number"] - span, r["number"]))
+    return inside
+
+
+def v1_comment_lines(raw, in_string=()):
+    """indices of the comment lines of a Colang 1.0 text: `# ...` lines and the lines of `\"\"\" ... \"\"\"` blocks (one line or
+    several).  Written from the language description (used to AIM edits only, never to judge)."""
+    out, in_block = set(), False
+    for i, l in enumerate(raw):
+        if i in in_string:
+            continue
+        t = l.strip()
+        if in_block:
+            out.add(i)
+            if t.split("#")[0].rstrip().endswith('"""'):
+                in_block = False
+            continue
+        if t.startswith("#"):
+            out.add(i)
+        elif t.startswith('"""'):
+            out.add(i)
+            t0 = t.split("#")[0].rstrip()
+            if t0 == '"""' or not t0.endswith('"""'):
+                in_block = True
+    return out
+
+
 def v1_boundaries(content):
-    """(safe insertion indices for a blank line, indices of lines that may get trailing blanks) from the REAL numbered lines."""
+    """(safe insertion indices for a blank line, indices of lines that may get trailing blanks).  A blank line is meaningless
+    layout everywhere except inside a multi-line string (taken from the REAL numbered lines) and between a line ending in
+    `\\` / ` or` and its continuation (syntactic, conservative).  In particular it IS layout between a comment and the statement
+    the comment documents, between two comment lines, and inside a `\"\"\"` comment block."""
     from nemoguardrails.colang.v1_0.lang.utils import get_numbered_lines
 
     raw = content.split("\n")
@@ -613,25 +733,56 @@ def v1_boundaries(content):
         recs = get_numbered_lines(content)
     except Exception:  # noqa
         return [], []
-    ends = {0}
-    in_string = set()
-    for r in recs:
-        ends.add(r["number"])
-        if "\n" in r["text"]:
-            span = r["text"].count("\n") + 1
-            in_string.update(range(r["number"] - span, r["number"]))
-    # multi-line `"""` comments: lines between the opening and closing marker are comment text (blank lines are dropped
-    # there too, but trailing blanks of the marker lines are harmless as well) - no restriction needed.
-    safe = sorted(j for j in ends if j <= len(raw))
-    # extend over blank / comment-only lines that follow a boundary
-    out = set(safe)
-    for j in safe:
-        t = j
-        while t < len(raw) and (raw[t].strip() == "" or raw[t].strip().startswith("#")):
-            t += 1
-            out.add(t)
+    in_string = _v1_string_lines(raw, recs)
+    unsafe = {j for j in range(1, len(raw)) if j in in_string and (j - 1) in in_string}
+    # an unterminated multi-line string swallows the rest of the file without a record: nothing is safe after its first line
+    opener = _v1_unterminated_string(raw, in_string)
+    if opener is not None:
+        unsafe.update(range(opener + 1, len(raw) + 1))
+        in_string = set(in_string) | set(range(opener, len(raw)))
+    for j in range(1, len(raw) + 1):
+        if _V1_CONT.search(raw[j - 1]):
+            unsafe.add(j)
+    safe = [j for j in range(len(raw) + 1) if j not in unsafe]
     trail_ok = [i for i in range(len(raw)) if i not in in_string]
-    return sorted(out), trail_ok
+    return safe, trail_ok
+
+
+def _v1_unterminated_string(raw, in_string):
+    """index of the first line that opens a multi-line string which is never closed (no record is produced for it)"""
+    comment = v1_comment_lines(raw, in_string)
+    for i, l in enumerate(raw):
+        if i in in_string or i in comment:
+            continue
+        t = l.strip()
+        if t.startswith('"') and not t.startswith('"""') and not t.endswith('"'):
+            return i
+    return None
+
+
+def deblank_v1(content):
+    """drop every blank line that is meaningless layout (see v1_boundaries)"""
+    raw = content.split("\n")
+    safe, _ = v1_boundaries(content)
+    ok = set(safe)
+    keep = [l for i, l in enumerate(raw) if not (l.strip() == "" and i in ok and i < len(raw) - 1)]
+    return "\n".join(keep)
+
+
+def v1_comment_positions(content):
+    """(insertion indices next to a comment line, comment lines and their neighbours) - where the 1.0 layout edits are aimed"""
+    raw = content.split("\n")
+    safe, trail_ok = v1_boundaries(content)
+    try:
+        from nemoguardrails.colang.v1_0.lang.utils import get_numbered_lines
+
+        in_string = _v1_string_lines(raw, get_numbered_lines(content))
+    except Exception:  # noqa
+        return [], []
+    cl = v1_comment_lines(raw, in_string)
+    pos = [j for j in safe if (j - 1) in cl or j in cl]
+    tl = [i for i in trail_ok if i in cl or (i - 1) in cl or (i + 1) in cl]
+    return pos, tl
 
 
 def apply_edit_v1(content, e):
@@ -644,6 +795,10 @@ def apply_edit_v1(content, e):
             out.append(" " * (n * e["k"]) + l[n:])
         return "\n".join(out)
     safe, trail_ok = v1_boundaries(content)
+    if e.get("aim") == "comment":
+        # next to a comment line: between a comment and the statement it documents, between two comment lines, inside a block
+        cpos, ctl = v1_comment_positions(content)
+        safe, trail_ok = (cpos or safe), (ctl or trail_ok)
     if op == "blank":
         if not safe:
             return content
@@ -658,7 +813,14 @@ def apply_edit_v1(content, e):
     raise ValueError(op)
 
 
-def gen_edit_v1(rng):
+def gen_edit_v1(rng, aim=None):
+    e = _gen_edit_v1(rng)
+    if aim and e["op"] in ("blank", "trail"):
+        e["aim"] = aim
+    return e
+
+
+def _gen_edit_v1(rng):
     r = rng.random()
     if r < 0.4:
         return {"op": "blank", "at": rng.randrange(10 ** 6), "ws": rng.choice(["", "", " ", "    ", "\t", " \t "])}
@@ -726,6 +888,12 @@ def gen_cases(rng, tier):
         cases.append({"kind": "file", "src": {"file": rng.choice(files)}, "seed": rng.randrange(10 ** 9), "n": rng.choice([1, 1, 2, 3])})
     for _ in range(n_v1gen):
         cases.append({"kind": "v1", "src": {"text": gen_v1_program(rng)}, "edits": [gen_edit_v1(rng) for _ in range(rng.choice([1, 1, 2]))]})
+    for _ in range(n_v1gen):
+        # comments that carry meaning x every 1.0 layout edit, most of them aimed at the comment lines and their neighbours
+        cases.append({"kind": "v1", "src": {"text": gen_v1_comment_program(rng)},
+                      "edits": [gen_edit_v1(rng, aim="comment" if rng.random() < 0.7 else None) for _ in range(rng.choice([1, 1, 2]))]})
+    cm = comment_sweep_cases()
+    cases.extend(cm if not quick else rng.sample(cm, min(len(cm), 160)))
     cs = cont_sweep_cases()
     cases.extend(cs if not quick else rng.sample(cs, min(len(cs), 90)))
     if not quick:
@@ -785,6 +953,11 @@ def canon_ast(x):
     if isinstance(x, dict):
         out = {}
         for k, v in x.items():
+            if k == "_source_mapping" and isinstance(v, dict) and v.get("comment") is not None:
+                # positions and source text are dropped, but the comment is CONTENT: the Colang 1.0 runtime hands the comment above
+                # a step to the LLM as instructions (`compute_next_state`: `next_step_comment`), `_process_ellipsis` turns the
+                # comment above `$v = ...` into the `instructions` of `generate_value`
+                out["_comment"] = v["comment"]
             if k in DROP_KEYS:
                 continue
             if k == "file_info" and isinstance(v, dict):
@@ -1392,7 +1565,7 @@ def oracle(case, obs):
         if "ok" not in e:
             return f"layout edit makes a valid file unparsable: {e.get('exc')}: {e.get('msg', '')[:160]}"
         if e["ok"] != obs["ast"]["ok"]:
-            return "layout edit changes the flows the file parses to"
+            return "layout edit changes the flows the file parses to: " + first_difference(json.loads(obs["ast"]["ok"]), json.loads(e["ok"]))[:300]
         return None
     if k in ("err", "fmt"):
         o = obs["outcome"]
@@ -1408,6 +1581,27 @@ def oracle(case, obs):
             return None  # BaseException subclasses pass through by design
         return f"loader raised {obs['cls']} (in {obs['site']}) instead of ColangParsingError: {obs['msg'][:160]}"
     return None
+
+
+def first_difference(a, b, path="ast"):
+    """where two canonical parse results differ first (path: original value != edited value)"""
+    if type(a) is not type(b):
+        return f"{path}: {a!r} != {b!r}"
+    if isinstance(a, dict):
+        for k in sorted(set(a) | set(b)):
+            if k not in a or k not in b:
+                return f"{path}.{k}: {a.get(k, '<missing>')!r} != {b.get(k, '<missing>')!r}"
+            d = first_difference(a[k], b[k], f"{path}.{k}")
+            if d:
+                return d
+        return ""
+    if isinstance(a, list):
+        for i, (x, y) in enumerate(zip(a, b)):
+            d = first_difference(x, y, f"{path}[{i}]")
+            if d:
+                return d
+        return "" if len(a) == len(b) else f"{path}: {len(a)} items != {len(b)} items"
+    return "" if a == b else f"{path}: {a!r} != {b!r}"
 
 
 def _comment_after_long_string(obs, edits):
@@ -1521,6 +1715,20 @@ def tags(case, obs):
 
 def shrink(case):
     k = case["kind"]
+    if k == "file" and not case.get("sweep"):
+        # explicit form: the same source with the edits spelled out (then the edits and the text can be shrunk)
+        try:
+            content, version, edits = expand_file_case(case)
+            yield {"kind": "v2" if version == "2.x" else "v1", "src": case["src"], "edits": edits}
+        except Exception:  # noqa
+            pass
+    if k in ("v2", "v1") and "file" in case["src"]:
+        try:
+            text = read_src(case["src"])
+            if len(text) < 8000:
+                yield dict(case, src={"text": text})
+        except Exception:  # noqa
+            pass
     if k in ("tok", "v2", "v1") and len(case.get("edits", [])) > 1:
         for i in range(len(case["edits"])):
             yield dict(case, edits=case["edits"][:i] + case["edits"][i + 1:])
@@ -1560,6 +1768,37 @@ def cont_sweep_cases():
     return out
 
 
+_CM_SWEEP = None
+
+
+def comment_sweep_cases():
+    """every line boundary next to a comment line (`#` lines, `\"\"\"` blocks) of every shipped Colang 1.0 file - as shipped and
+    with its blank lines removed first - x {empty line, blanks-only line, trailing blanks on the line before}"""
+    global _CM_SWEEP
+    if _CM_SWEEP is not None:
+        return _CM_SWEEP
+    out = []
+    for f in shipped():
+        try:
+            content = read_src({"file": f})
+            if _is_v2(content) or not ("#" in content or '"""' in content):
+                continue
+            variants = [{"file": f}]
+            if deblank_v1(content) != content:
+                variants.append({"file": f, "deblank": True})
+            for src in variants:
+                pos, tl = v1_comment_positions(read_src(src))
+                for at in range(len(pos)):
+                    out.append({"kind": "v1", "src": src, "edits": [{"op": "blank", "at": at, "ws": "", "aim": "comment"}]})
+                    out.append({"kind": "v1", "src": src, "edits": [{"op": "blank", "at": at, "ws": "  ", "aim": "comment"}]})
+                for at in range(len(tl)):
+                    out.append({"kind": "v1", "src": src, "edits": [{"op": "trail", "at": at, "ws": " \t", "aim": "comment"}]})
+        except Exception:  # noqa
+            continue
+    _CM_SWEEP = out
+    return out
+
+
 def pre_sweep_cases():
     """every line end that the pre-parsing expansion looks at (stand-alone `...`, docstrings) and its neighbours, in every shipped
     2.x file that has one, x {trailing blanks, blank line, end-of-line comment}"""
@@ -1595,4 +1834,7 @@ def escalate(rng, focus, tier):
     for _ in range(600):
         cases.append({"kind": "v2", "src": {"text": gen_pre_program(rng)},
                       "edits": [gen_edit_v2(rng, allow_tab=False, aim="pre") for _ in range(rng.choice([1, 1, 2]))]})
-    return cont_sweep_cases() + pre_sweep_cases() + cases
+    for _ in range(600):
+        cases.append({"kind": "v1", "src": {"text": gen_v1_comment_program(rng)},
+                      "edits": [gen_edit_v1(rng, aim="comment") for _ in range(rng.choice([1, 1, 2]))]})
+    return comment_sweep_cases() + cont_sweep_cases() + pre_sweep_cases() + cases
